@@ -1,1 +1,65 @@
-import Soa.Model.Exec
+import Soa.Lemmas.Positions
+import Soa.Props.C01
+import Soa.Props.C03
+/-!
+# C15 — element references convert and replace faithfully
+
+An element reference (`…Ref`, `…RefMut`) is one position of the parent (or, for
+`value.as_ref()` / `as_mut()`, the single row of a one-row tree).
+* `to_owned` / the four `From` impls read every field at that position and clone it, field
+  by field: the owned value has exactly the ids of the referenced row, one clone per leaf in
+  field order, and the source is untouched (`to_owned_row`);
+* borrowing a value as a reference shows exactly the value's fields (`value_as_ref`);
+* extending a vector from references appends the referenced rows (`extend_from_refs`);
+* `RefMut::replace v` stores `v` in exactly that element, returns the old element, destroys
+  nothing, and conserves ownership of both (`replace_row`, `replace_conserves`).
+-/
+namespace Soa.C15
+open Soa View
+
+/-- the model of `to_owned()` at position `i`: ids read per leaf (clones carry the id) -/
+def toOwned (c : Cols) (i : Nat) : List Nat × Ev := (rowIds c i, { clones := rowIds c i })
+
+/-- **to_owned / From**: the owned value equals the referenced element field by field, one
+    clone per field in declaration order, nothing destroyed -/
+theorem to_owned_row (c : Cols) (n i : Nat) (hc : c.lock n) (hi : i < n) :
+    ∃ r, c.rows[i]? = some r ∧ (toOwned c i).1 = r.ids ∧ (toOwned c i).2.clones = r.ids ∧
+      (toOwned c i).2.drops = [] := by
+  obtain ⟨r, h1, h2⟩ := rowIds_eq c n i hc hi
+  exact ⟨r, h1, h2, h2, rfl⟩
+
+/-- **value.as_ref()**: the reference to a struct value (a one-row tree) shows exactly its fields -/
+theorem value_as_ref (e : Cols) (he : e.lock 1) : ∃ r, e.rows = [r] ∧ rowIds e 0 = r.ids := by
+  obtain ⟨r, h1, h2⟩ := rowIds_eq e 1 0 he (by omega)
+  obtain ⟨r', h3, _⟩ := one_row e he
+  rw [h3] at h1
+  simp at h1
+  subst h1
+  exact ⟨r', h3, h2⟩
+
+/-- **Extend<Ref>**: `extend(iter.map(to_owned))` appends the referenced rows, cloned -/
+theorem extend_from_refs (c d : Cols) (n k : Nat) (hc : c.lock n) (hd : d.lock k) (hs : c.same d) :
+    (Model.extendFromSlice c d).st.rows = c.rows ++ d.rows ∧ (Model.extendFromSlice c d).ev.clones = d.flat := by
+  have h := C01.extendFromSlice hc hd hs
+  exact ⟨by rw [h.st]; rfl, rfl⟩
+
+/-- **RefMut::replace**: exactly that element is replaced, the old one is returned -/
+theorem replace_row (dr : Bool) (c e : Cols) (n i : Nat) (hc : c.lock n) (he : e.lock 1) (hs : c.same e) (hi : i < n) :
+    (Model.replace dr c i e).st.rows = c.rows.take i ++ e.rows ++ c.rows.drop (i + 1) ∧
+    (Model.replace dr c i e).ret.map Cols.rows = some ((c.rows.drop i).take 1) := by
+  have h := C01.replace dr i hc he hs
+  have hlen := rows_len n c hc
+  have hspec : Spec.replace dr c.rows i e.rows =
+      { st := c.rows.take i ++ e.rows ++ c.rows.drop (i + 1), ret := some ((c.rows.drop i).take 1) } := by
+    simp [Spec.replace, Spec.std, replaceOp, PolyOp.ofTotal_run, hlen, hi]
+  exact ⟨by rw [h.st, hspec], by rw [h.ret, hspec]⟩
+
+/-- exactly-once ownership of both the stored and the returned value -/
+theorem replace_conserves (dr : Bool) (c e : Cols) (n i : Nat) (hc : c.lock n) (he : e.lock 1) (hs : c.same e) :
+    C03.Conserves c e (Model.replace dr c i e) :=
+  C03.replace dr i hc he hs
+
+/-! non-vacuity -/
+example : (toOwned C01.exC 1).1 = [16, 17, 18, 19] := by decide
+
+end Soa.C15
